@@ -43,8 +43,8 @@ impl SubCheck for Verdicts {
         p.max_props = 5;
         p.min_props = 1;
         p.max_n = tier.pick(24, 50);
-        (graph_strategy(p), exhaustive_strat(), threads_strategy())
-            .prop_map(|(g, strat, threads)| GCase { g, cfg: RunCfg::plain(strat, threads) })
+        (graph_strategy(p), exhaustive_strat(), threads_strategy(), block_strategy())
+            .prop_map(|(g, strat, threads, block)| GCase { g, cfg: RunCfg::plain(strat, threads).with_block(block) })
             .boxed()
     }
     fn check(&self, case: &GCase, cov: &mut Cov) -> Result<(), Fail> {
